@@ -30,6 +30,8 @@ import traceback
 
 VERIF = os.path.dirname(os.path.dirname(os.path.abspath(__file__)))
 REPO = os.environ.get("VERIF_REPO", "/repo")
+# sensitivity runs against scratch copies write their evidence and replay files elsewhere (never set by registered commands)
+OUT = os.environ.get("VERIF_OUT") or None
 
 
 def setup_paths():
@@ -259,7 +261,7 @@ def _jsonable(x, depth=0):
 
 
 def write_replay(prop, arm_name, tier, key, case, msg, shrunk):
-    d = os.path.join(VERIF, "replays", prop)
+    d = os.path.join(OUT or VERIF, "replays", prop)
     os.makedirs(d, exist_ok=True)
     name = "%s-%016x.json" % (arm_name, h64(key))
     path = os.path.join(d, name)
@@ -325,6 +327,11 @@ def main(prop, tier, replay_path=None, jobs=None):
     os.environ.setdefault("PYTHONHASHSEED", "0")
     mod = load_check(prop)
     arms = mod.arms(tier)
+    scale = float(os.environ.get("VERIF_SCALE", "1") or "1")   # sensitivity screening only; registered commands never set it
+    if scale != 1:
+        for a in arms:
+            a.quick = max(20, int(a.quick * scale)) if a.quick > 0 else a.quick
+            a.thorough = max(20, int(a.thorough * scale)) if a.thorough > 0 else a.thorough
     jobs = jobs or int(os.environ.get("VERIF_JOBS", "16"))
     import concurrent.futures as cf
     import multiprocessing as mp
@@ -488,7 +495,7 @@ def main(prop, tier, replay_path=None, jobs=None):
             harness_errors.append("required class %r was never generated (generator defect)" % c)
 
     # classes that must be reached at least n times in the quick tier (a generator whose interesting class dwindles is a defect)
-    if tier == "quick":
+    if tier == "quick" and scale == 1:
         for c, n in getattr(mod, "MIN_CLASS_COUNTS", {}).items():
             if classes.get(c, 0) < n and not harness_errors:
                 harness_errors.append("class %r was generated %d times, at least %d are required (generator defect)" % (c, classes.get(c, 0), n))
@@ -507,8 +514,8 @@ def main(prop, tier, replay_path=None, jobs=None):
         wall_s=round(wall, 2), violations=len(viol_out),
         known_findings=[l for l in known_lines if l.startswith("KNOWN")],
         violation_details=viol_out[:20], harness_errors=harness_errors[:10])
-    os.makedirs(os.path.join(VERIF, "evidence"), exist_ok=True)
-    with open(os.path.join(VERIF, "evidence", "%s.json" % prop), "w", encoding="utf-8") as fh:
+    os.makedirs(os.path.join(OUT or VERIF, "evidence"), exist_ok=True)
+    with open(os.path.join(OUT or VERIF, "evidence", "%s.json" % prop), "w", encoding="utf-8") as fh:
         json.dump(evidence, fh, indent=1, ensure_ascii=True, default=safe_repr)
 
     for l in known_lines:
